@@ -1,2 +1,3 @@
 import Driver.Codec
 import Driver.TextOps
+import Driver.ParseOps
